@@ -6,6 +6,7 @@ CONSTANTS
   MaxViews = 2
   MaxAccs = 0
   Mode = "c15"
+  AccSet = "base"
   SubVariants = "small"
   MaxHist = 2
 SPECIFICATION MCSpec
